@@ -51,7 +51,9 @@ def _plain(t):
 
 def _conds(cx, ev):
     atoms = set()
-    for a in facts.flat_atoms(g for g in facts.own_guards(cx, ev) if g[0][0] != "exc"):
+    # (all conditions in force, the negations of earlier early exits included: ``if not x: return`` before a statement and
+    # ``if x:`` around it say the same)
+    for a in facts.flat_atoms(g for g in ev.guards if g[0][0] != "exc"):
         t, pol = facts.canon_guard((_plain(a[0]), a[1]))
         atoms.add("%s:%s" % (T.show(t), "T" if pol else "F"))
     if any(g[0][0] == "exc" for g in ev.guards):
